@@ -32,6 +32,10 @@ def classify(why, f, c, o):
     # D15: worker dies after writing its exit announcement, still holding the result-queue write lock
     if hang and "rq.wlock.rel" in crash_at:
         return {"defect": "D15"}
+    # D6: a done-callback that submits (it runs in the manager thread and needs the submit/resize lock) while a caller of
+    #     get_reusable_executor holds that lock and waits for something only the manager thread can do
+    if any(b.startswith("mgr@exlock.acq") for b in blocked) and "reuse" in ops and "callback_submit" in ops:
+        return {"defect": "D6"}
     # D19: _resize spawns workers outside the processes management lock: a new worker can announce an idle-timeout exit
     #      before it is registered; the manager cannot complete the handshake, the worker leaves after the 30 s grace
     #      period and its sentinel breaks the pool -- a broken pool although no process died abruptly
